@@ -72,6 +72,14 @@ class SIntegrator(Integrator):
         }
 
         if isinstance(generator, PreSetWiener):
+            if self.N_dw != 1:
+                # The record only holds the increments dW; schemes that also
+                # use the iterated integrals of the noise cannot be re-run
+                # from it.
+                raise NotImplementedError(
+                    f"{type(self).__name__} does not support running"
+                    " the evolution from a noise record."
+                )
             self.wiener = generator
             if (
                 generator.is_measurement
